@@ -124,6 +124,8 @@ class LRU(UserDict[K, V]):
         super().__init__()
         self.data = OrderedDict()
         self.maxsize = maxsize
+        if _verif.ENABLED:
+            _verif.emit("lru_new", cache=id(self), maxsize=maxsize)
 
     def __getitem__(self, key: K) -> V:
         value = super().__getitem__(key)
